@@ -25,8 +25,10 @@ CheckGrad(e) ==
       \*   g = q / sigma,  g^2 = q^2 / Var,  q = sigma * g as in Ensemble!GradStdSigmaQ
       var(f) == VarQ(x.units[f], ColsAt(g, g.x)[f])
   IN IF e.outcome \notin {"ok", "toofew"} THEN "internal_exception"
-     ELSE IF x.st = "toofew" THEN (IF e.outcome = "toofew" THEN "ok" ELSE "too_few_not_signalled")
+     ELSE IF x.st = "toofew" THEN (IF e.outcome = "toofew" \/ e.gst = "nogradients" \/ e.fun.outcome = "nofunctions" THEN "ok" ELSE "too_few_not_signalled")
      ELSE IF e.outcome = "toofew" THEN "spurious_too_few"
+     \* split mode: the function evaluation already reported too few realizations, no gradient was requested
+     ELSE IF e.gst = "none" /\ e.mode = "split" /\ e.funverdict # "skip" /\ e.fun.outcome = "nofunctions" THEN CheckFun(e.fun)
      ELSE IF \E r \in 1..g.R : e.failedG[r] # (r \in FailedG(g)) THEN "gradient_failed_flags"
      ELSE IF e.funverdict # "skip" /\ CheckFun(e.fun) # "ok" THEN CheckFun(e.fun)
      ELSE IF x.st = "nogradients" THEN (IF e.gst = "nogradients" THEN "ok" ELSE "gradients_reported_below_min_success")
